@@ -137,7 +137,9 @@ theorem pres_andThen {α β} (a : M α) (b : M β) (ha : Pres a) (hb : Pres b) :
 /-! The stack primitives keep the number of frames. -/
 
 theorem frame_update_length (f : Frame) (x : String) (v : DV) : (Frame.update f x v).length = f.length := by
-  simp [Frame.update]
+  induction f with
+  | nil => rfl
+  | cons b rest ih => unfold Frame.update; split <;> simp [ih]
 
 theorem define_length (st : Stack) (x : String) (ty : Ty) (v : DV) (st' : Stack)
     (h : Stack.define st x ty v = .ok st') : st'.length = st.length := by
